@@ -269,7 +269,8 @@ fn check_doc_in_order(pins: &[Pin], tests: &[TestDesc], st: &mut Stats) -> Optio
             // names that are nearly labels (other letter case, blank space around, a prefix, an extension):
             // a name selects the first test whose label is exactly that name, and nothing else
             let labels: Vec<Option<String>> = tests.iter().map(|t| t.label.clone()).collect();
-            let mut near: Vec<String> = vec!["  ".into(), "\t".into(), "T".into(), "t ".into()];
+            // (names that look like indices are names: "0" is not the first test)
+            let mut near: Vec<String> = vec!["  ".into(), "\t".into(), "T".into(), "t ".into(), "0".into(), "1".into(), "2".into(), "+1".into(), "007".into(), "-0".into(), "0x1".into()];
             for l in labels.iter().flatten() {
                 near.extend([l.to_uppercase(), l.to_lowercase(), format!(" {l}"), format!("{l} "), format!("\t{l}\n"), format!("{l}x"), l.chars().skip(1).collect()]);
             }
